@@ -79,6 +79,11 @@ func checkC08(c *core.Ctx) {
 	ruleRunLogInsertsOnce(c)
 	ruleLogKinds(c)
 	ruleImportArms(c)
+	// "every successful non-dry-run write appends exactly one log": a dry run must not commit
+	// (begin/commit/rollback pairing, shared with C07); ids in commit order need plain per-ledger
+	// sequences (shared with C16)
+	rulePairAll(c)
+	ruleIDsAndSequences(c)
 }
 
 func ruleWritersForgeLog(c *core.Ctx) {
@@ -742,6 +747,8 @@ func checkC11(c *core.Ctx) {
 	ruleImportHashVerified(c)
 	ruleSequenceResync(c)
 	ruleDecoratorCompleteness(c, "DECO/all", nil)
+	// identical metadata on the copy: the import's metadata writers merge like the originals (C17)
+	ruleMetadataMerge(c)
 	// nextval only when ID == nil: shared with C16
 	for _, u := range []string{"InsertTransaction", "InsertLog"} {
 		if d := fn(c, pkgStore, "Store", u); d != nil {
